@@ -13,8 +13,8 @@ from vlib.core import Inconclusive
 LEVEL = "model_checking"
 
 # (SegLens operator, MaxFill, RichFills)
-QUICK = [("L1", 2, 2), ("L2", 2, 2), ("L3", 3, 1), ("L2", 3, 1)]
-THOROUGH = [("L1", 3, 2), ("L2", 3, 2), ("L3", 3, 1), ("L4", 3, 1), ("L2", 4, 1), ("L3", 4, 0)]
+QUICK = [("L0", 1, 1), ("L0b", 1, 1), ("L1b", 2, 1), ("L1", 2, 2), ("L2", 2, 2), ("L3", 3, 1), ("L2", 3, 1)]
+THOROUGH = [("L0", 1, 1), ("L0b", 1, 1), ("L1b", 3, 2), ("L1", 3, 2), ("L2", 3, 2), ("L3", 3, 1), ("L4", 3, 1), ("L2", 4, 1), ("L3", 4, 0)]
 
 
 def generate(ctx, sd, configs, outpath, depth=6):
